@@ -676,8 +676,9 @@ def replace_fixed_thetas(model: Model):
     keep = []
     new_assignments = []
 
+    rv_symbols = model.random_variables.free_symbols
     for p in model.parameters:
-        if p.fix:
+        if p.fix and p.symbol not in rv_symbols:
             ass = Assignment(p.symbol, Expr.float(p.init))
             new_assignments.append(ass)
         else:
